@@ -124,7 +124,9 @@ def oracle(case, impl):
             extra = [t for t in served if t >= len(names) or names[t] not in allow]
             if extra:
                 out.append(("exposed;start=" + toks[1], "a %s endpoint with the allow-list %r serves channels that are not on it: %r" % (toks[1], allow, [names[t] for t in extra if t < len(names)])))
-            missing = [a for a in allow if a in names and names.index(a) not in served]
+            # (an allow-list naming a channel that does not exist is a configuration error: the endpoint does not come up, or - the
+            # standard-stream server - comes up serving nothing; neither exposes anything)
+            missing = [a for a in allow if names.index(a) not in served] if all(a in names for a in allow) else []
             if missing:
                 out.append(("refused-configured;start=" + toks[1], "a %s endpoint does not serve %r although it is configured and on its allow-list" % (toks[1], missing)))
         return out
